@@ -584,6 +584,7 @@ def simulate_family(rep, family, seed, num, compare, devsets=(), tag=None, min_s
         shutil.rmtree(wd, ignore_errors=True)
     replay_records(rep, recs, seed, "quick", compare, variants=1, tag=tag or ("s" + family), trace_budget=20000,
                    deviation_preds=preds)
+    rep.last_preds = preds
     return recs
 
 
@@ -622,6 +623,7 @@ def family_check(rep, family, tier, seed, compare, over_quick, over_thorough, de
     preds = deviation_predictions(rep, family, devsets, **over) if devsets else None
     replay_records(rep, recs, rnd.random(), tier, compare, variants=2, tag=tag or ("f" + family),
                    trace_budget=trace_budget or (80000 if tier == "thorough" else 25000), deviation_preds=preds)
+    rep.last_preds = preds
     return r
 
 
@@ -650,9 +652,12 @@ def norm_tree(out):
     return walk(root)
 
 
-def twin_check(rep, recs, seed, tag, what):
+def twin_check(rep, recs, seed, tag, what, deviation_preds=None, compare=None):
     """For every record run the document and its mechanically derived twin
-    (rec['unr'], produced by Sem.Ideal) and require the same element tree."""
+    (rec['unr'], produced by Sem.Ideal) and require the same element tree.
+    deviation_preds / compare: recognise a difference that is exactly what a listed
+    deviation of the specification predicts for the document (a known finding seen
+    through the twin)."""
     rnd = random.Random(seed)
     cases, meta = [], {}
     for j, rec in enumerate(recs):
@@ -676,10 +681,10 @@ def twin_check(rep, recs, seed, tag, what):
         cfg["depth_limit"] = 100
         cases.append({"k": f"{tag}-{j}-p", "xml": x1, "cfg": cfg})
         cases.append({"k": f"{tag}-{j}-t", "xml": x2, "cfg": cfg})
-        meta[j] = (rec, x1, x2, cfg)
+        meta[j] = (rec, x1, x2, cfg, c1)
     res = vlib.run_cases(cases)
     n = 0
-    for j, (rec, x1, x2, cfg) in meta.items():
+    for j, (rec, x1, x2, cfg, c1) in meta.items():
         r1, r2 = res[f"{tag}-{j}-p"], res[f"{tag}-{j}-t"]
         rep.case(doc_key(rec) + what)
         bad = None
@@ -692,6 +697,12 @@ def twin_check(rep, recs, seed, tag, what):
                 t1, t2, bad = None, None, (f"{what}:not-wellformed", str(e))
             if bad is None and t1 != t2:
                 bad = (f"{what}:tree-differs", "output of the document and of its twin differ")
+        if bad and deviation_preds and compare:
+            for dev, preds in deviation_preds.items():
+                p = preds.get(doc_key(rec))
+                if p is not None and (p["res"], p["items"]) != (rec["res"], rec["items"]) and compare(p, c1, r1) is None:
+                    bad = (f"{dev}:{bad[0]}", bad[1] + f" (the document behaves as the deviation {dev} predicts)")
+                    break
         if bad:
             rep.violation(bad[0], {"abstract": doc_brief(rec), "xml": x1, "twin_xml": x2, "cfg": cfg,
                                    "out": vlib.trunc(r1.get("out"), 3000), "twin_out": vlib.trunc(r2.get("out"), 3000),
